@@ -114,6 +114,9 @@ def asarray(obj, dtype=None, **kw):
         return obj
     if isinstance(obj, (SR, SB)):
         return obj  # 0-d: keep the scalar
+    if isinstance(obj, sym.IntSymArray) and dtype in (float, _np.float64):
+        # numpy converts an integer array to float64 by COPYING it (a float64 array is handed through)
+        return _np.array(deep_strip(obj), dtype=object).view(SymArray)
     if dtype is not None and dtype is not object and is_sym(obj):
         dtype = object
     r = _np.asarray(deep_strip(obj), dtype=dtype, **kw)
